@@ -22,7 +22,7 @@ from mc.ref import si
 from mc.ref import reaction as R
 
 core.setup_paths()
-from strengths.rdnetwork import Reaction, RDNetwork, Species, rdnetwork_from_dict  # noqa: E402
+from strengths.rdnetwork import Reaction, RDNetwork, Species, rdnetwork_from_dict, reaction_from_dict  # noqa: E402
 from strengths.units import UnitValue, UnitsSystem  # noqa: E402
 
 TOL = 1e-9
@@ -827,6 +827,42 @@ def _case_netadv(case, out):
                     "species %s, reaction %r: every species is declared; %s: %s" % (declared, text, type(err).__name__, err)))
 
 
+# ---- the reaction's units system when it is declared by a dictionary -----------------------------------
+#
+# json_and_dict_doc.rst, reaction "units": "default" = µm, s, molecule; "inherit" (also when the key is absent) =
+# the enclosing object's system; a dictionary = that system.  A bare "k+" / "k-" must land in exactly that system.
+
+FD_UNITS = ["absent", "inherit", "default", "dict"]
+
+
+def _case_kfromdict(case, out):
+    text = _k_text(case)
+    n, m = case["n"], case["m"]
+    parent, own = tuple(case["parent"]), tuple(case["own"])
+    df, dr = R.k_dimension(n), R.k_dimension(m)
+    d = {"stoichiometry": text, "k+": 7, "k-": 0.375, "label": "R"}
+    spec = case["units"]
+    if spec == "dict":
+        d["units"] = uq.sysdict(own)
+    elif spec != "absent":
+        d["units"] = spec
+    expect = {"absent": parent, "inherit": parent, "default": si.DEFAULT, "dict": own}[spec]
+    if case["route"] == "reaction_from_dict":
+        r = reaction_from_dict(d, uq.mk_sys(parent))
+    else:
+        net = rdnetwork_from_dict({"units": uq.sysdict(parent), "species": [{"label": l} for l in ("A", "B", "C")],
+                                   "reactions": [d]})
+        r = net.reactions[0]
+    what = "reaction dict %r inside units %s (%s)" % (d, parent, case["route"])
+    if _us3(r.units_system) != tuple(expect):
+        out.append(("%s:from_dict:units-system:%s:%s" % (PID, spec, case["route"]),
+                    "%s: the reaction's units system is %s, documented %s" % (what, _us3(r.units_system), tuple(expect))))
+    for name, got, num, dim in (("kf", r.kf, 7, df), ("kr", r.kr, 0.375, dr)):
+        p = _const_problem(got, dim, F(num) * si.si_scale(expect, dim), bare=(num, expect))
+        if p:
+            out.append(("%s:from_dict:%s:bare-number:%s:%s" % (PID, name, spec, case["route"]), "%s: %s %s" % (what, name, p)))
+
+
 # ---- E2: operation histories on ONE Reaction object ---------------------------------------------------
 #
 # The statement's "the equilibrium constant is their ratio", "splitting it gives ... the same constants" speak
@@ -838,9 +874,10 @@ def _case_netadv(case, out):
 HIST_RX = [("A -> B", si.DEFAULT), ("A + B -> C", si.MIXED[3]), ("-> 2 A", si.DEFAULT),
            ("2 A + A -> 0 B + 2 C", si.MIXED[0])]            # orders 1/1, 2/1, 0/2, 3/2
 HIST_OPS = ["K", "EC", "kf=scalar", "kf=str", "kf=dict", "kf=zero", "kr=scalar", "kr=str", "kr=dict", "kr=zero",
-            "set_k=scalars", "set_k=dict+zero", "split", "to_string", "dims", "kr=bad", "set_k=badkf", "fork", "swap"]
+            "set_k=scalars", "set_k=dict+zero", "split", "to_string", "dims", "kr=bad", "set_k=badkf", "fork", "swap",
+            "us=other", "us=dict"]
 HIST_OPS_CORE = ["K", "EC", "kf=scalar", "kf=dict", "kr=scalar", "kr=str", "kr=dict", "kr=zero", "set_k=scalars",
-                 "split", "kr=bad", "swap"]
+                 "split", "kr=bad", "swap", "us=other"]
 NET_OPS = ["K", "kf=scalar", "kr=scalar", "kr=zero", "kr=dict", "set_k=scalars"]
 NETHIST_OPS = ["h%d.%s" % (h, o) for h in (0, 1, 2) for o in NET_OPS] + ["netcopy"]
 
@@ -851,13 +888,30 @@ def _h_ctx(rx):
     s_terms, p_terms = R.parse(text)
     n, m = R.order(s_terms), R.order(p_terms)
     qsys = si.MIXED[3] if sys3 == si.MIXED[0] else si.MIXED[0]
-    return {"text": text, "sys": sys3, "us": uq.mk_sys(sys3), "s": s_terms, "p": p_terms, "n": n, "m": m,
+    # unit systems the object can be switched to: 0 = the one it is built with, 1 = 'us=other' (a UnitsSystem
+    # object), 2 = 'us=dict' (a units dictionary)
+    systems = [sys3, si.MIXED[3] if sys3 == si.DEFAULT else si.DEFAULT, si.MIXED[5]]
+    return {"text": text, "sys": sys3, "us": uq.mk_sys(sys3), "systems": systems, "s": s_terms, "p": p_terms, "n": n, "m": m,
             "df": R.k_dimension(n), "dr": R.k_dimension(m), "qsys": qsys, "L": _universe(s_terms, p_terms)}
 
 
+def _explicit(v, sys3, dim):
+    """The same constant with every bare number written as an explicit quantity of system sys3."""
+    if isinstance(v, dict):
+        return {k: _explicit(x, sys3, dim) for k, x in v.items()}
+    if isinstance(v, (int, float)) and not isinstance(v, bool):
+        return uq.mk_uv(v, sys3, dim)
+    return v
+
+
 def _h_val(c, which, form):
-    """The value an operation assigns (rebuilt identically each time it is needed)."""
+    """The value an operation assigns (rebuilt identically each time it is needed).  'form@k' = that value as
+    it must be understood when it was assigned while the reaction's units system was systems[k]: bare numbers
+    are numbers OF THAT SYSTEM (the model side of 'bare numbers get the units of the reaction's units system')."""
     dim = c["df"] if which == "kf" else c["dr"]
+    if "@" in form:
+        form, k = form.split("@")
+        return _explicit(_h_val(c, which, form), c["systems"][int(k)], dim)
     q = lambda v, f="str": _quantity(v, c["qsys"], dim, f)       # noqa: E731
     if form == "bad":
         return uq.mk_uv(3.5, c["qsys"], _add(dim, (1, 0, 0)))
@@ -870,7 +924,7 @@ def _h_val(c, which, form):
 
 def _h_fresh(c, model):
     return Reaction(c["text"], kf=_h_val(c, "kf", model[0]), kr=_h_val(c, "kr", model[1]), label="R",
-                    units_system=c["us"])
+                    units_system=uq.mk_sys(c["systems"][model[2]]))
 
 
 def _same_K(a, b):
@@ -931,7 +985,7 @@ def _h_observe(r, c, model, where, out, hist):
     fd, rd = r.kf_units_dimensions(), r.kr_units_dimensions()
     if (fd.space, fd.time, fd.quantity) != c["df"] or (rd.space, rd.time, rd.quantity) != c["dr"]:
         out.append(("%s:history:units_dimensions:%s" % (PID, where), "after %s" % (hist,)))
-    if r.label != "R" or _us3(r.units_system) != c["sys"]:
+    if r.label != "R" or _us3(r.units_system) != tuple(c["systems"][model[2]]):
         out.append(("%s:history:label-or-units-system:%s" % (PID, where), "after %s: label %r, units system %s"
                     % (hist, r.label, _us3(r.units_system))))
     tag = "history:" + where
@@ -941,7 +995,7 @@ def _h_observe(r, c, model, where, out, hist):
 
 def _h_apply(r, c, model, op, out, hist, olds):
     """Apply one operation; returns (r, model) (only 'swap' changes the object)."""
-    kf, kr = model
+    kf, kr, cur = model
     if op in ("K", "EC"):
         how = "K" if op == "K" else "equilibrium_constant"
         _h_cmpK(_h_readK(r, how), _h_readK(_h_fresh(c, model), "K"), how, op, out, hist)
@@ -955,20 +1009,21 @@ def _h_apply(r, c, model, op, out, hist, olds):
             out.append(("%s:history:%s:wrong-dimension-accepted" % (PID, op), "after %s" % (hist,)))
             return r, model
         setattr(r, which, _h_val(c, which, form))
-        model = (form, kr) if which == "kf" else (kf, form)
+        form = "%s@%d" % (form, cur)
+        model = (form, kr, cur) if which == "kf" else (kf, form, cur)
     elif op == "set_k=scalars":
         r.set_k(_h_val(c, "kf", "s1"), _h_val(c, "kr", "s1"))
-        model = ("s1", "s1")
+        model = ("s1@%d" % cur, "s1@%d" % cur, cur)
     elif op == "set_k=dict+zero":
         r.set_k(_h_val(c, "kf", "s2"), _h_val(c, "kr", "s2"))
-        model = ("s2", "s2")
+        model = ("s2@%d" % cur, "s2@%d" % cur, cur)
     elif op == "set_k=badkf":
         try:
             r.set_k(_h_val(c, "kf", "bad"), _h_val(c, "kr", "s3"))
         except Exception:
             # kf stays; whether the valid kr of a rejected set_k was taken is not decided by the statement
-            if _same_const(r.kr, _h_fresh(c, (kf, "s3")).kr) is None:
-                model = (kf, "s3")
+            if _same_const(r.kr, _h_fresh(c, (kf, "s3@%d" % cur, cur)).kr) is None:
+                model = (kf, "s3@%d" % cur, cur)
             return r, model
         out.append(("%s:history:%s:wrong-dimension-accepted" % (PID, op), "after %s" % (hist,)))
     elif op == "split":
@@ -984,7 +1039,13 @@ def _h_apply(r, c, model, op, out, hist, olds):
     elif op == "fork":          # a copy, modified: the copy is right, the original untouched (observed later)
         cp = r.copy()
         cp.kr = _h_val(c, "kr", "str")
-        _h_observe(cp, c, (kf, "str"), "fork:copy", out, hist)
+        _h_observe(cp, c, (kf, "str@%d" % cur, cur), "fork:copy", out, hist)
+    elif op == "us=other":      # stored constants keep their physical value; later bare numbers use the new system
+        r.units_system = uq.mk_sys(c["systems"][1])
+        model = (kf, kr, 1)
+    elif op == "us=dict":
+        r.units_system = uq.sysdict(c["systems"][2])
+        model = (kf, kr, 2)
     elif op == "swap":          # go on with a copy; the abandoned original is observed again at the end
         olds.append((r, model))
         r = r.copy()
@@ -996,8 +1057,8 @@ def _h_apply(r, c, model, op, out, hist, olds):
 def _case_hist(case, out):
     c = _h_ctx(case["rx"])
     ops, every = list(case["ops"]), case["mode"] == "every"
-    model = ("init", "init")
-    r = _h_fresh(c, model)
+    model = ("init@0", "init@0", 0)
+    r = Reaction(c["text"], kf=_h_val(c, "kf", "init"), kr=_h_val(c, "kr", "init"), label="R", units_system=c["us"])
     olds = []
     done = []
     for op in ops:
@@ -1019,8 +1080,8 @@ def _case_hist(case, out):
 
 def _case_nethist(case, out):
     c = _h_ctx(case["rx"])
-    model0 = ("init", "init")
-    r = _h_fresh(c, model0)
+    model0 = ("init@0", "init@0", 0)
+    r = Reaction(c["text"], kf=_h_val(c, "kf", "init"), kr=_h_val(c, "kr", "init"), label="R", units_system=c["us"])
     other = Reaction("B -> A", kf=1, kr=1)
     net1 = RDNetwork([Species("A"), Species("B"), Species("C")], [r])
     net2 = RDNetwork([Species("C"), Species("B"), Species("A"), Species("D")], [other, r])
@@ -1039,7 +1100,7 @@ def _case_nethist(case, out):
             rc = nc.reactions[0]
             k = [i for i, o in enumerate(objs) if o is handles[1]][0]
             rc.kr = _h_val(c, "kr", "str")
-            _h_observe(rc, c, (models[k][0], "str"), "netcopy:copy", out, hist)
+            _h_observe(rc, c, (models[k][0], "str@%d" % models[k][2], models[k][2]), "netcopy:copy", out, hist)
         else:
             hs, o = op.split(".", 1)
             h = handles[int(hs[1:])]
@@ -1082,7 +1143,7 @@ class SeqSpace:
 _DISPATCH = {"eq": _case_eq, "kbare": _case_kbare, "kexp": _case_kexp, "kwrong": _case_kwrong,
              "kdict": _case_kdict, "kdictwrong": _case_kdictwrong, "net": _case_net,
              "hist": _case_hist, "nethist": _case_nethist, "netobj": _case_netobj,
-             "netadv": _case_netadv}
+             "netadv": _case_netadv, "kfromdict": _case_kfromdict}
 
 
 def check_case(case):
@@ -1209,6 +1270,10 @@ def _spaces(tier):
                     [("n", ORDERS), ("m", ORDERS), ("which", ["kf", "kr"]), ("pos", [0, 1, 2]), ("off", CUBE_OFF),
                      ("qform", ["str", "UnitValue"]), ("sys", sysw)],
                     const={"form": "two", "qsys": si.MIXED[5]}))
+    sp.append(Space("kfromdict: reaction declared by a dictionary with bare k+ / k-: orders 0..8 x 0..8 x 8 enclosing unit systems x 'units' in {absent, 'inherit', 'default', dictionary} x {reaction_from_dict, rdnetwork_from_dict}: the constants land in the documented system",
+                    "kfromdict", [("n", ORDERS), ("m", ORDERS), ("parent", sys8), ("units", FD_UNITS),
+                                  ("route", ["reaction_from_dict", "rdnetwork_from_dict"])],
+                    const={"form": "two", "own": si.MIXED[4]}))
     # -- networks
     rspecs = [(eq, lab) for eq in NET_EQS for lab in NET_RLABELS]          # 18
     sp.append(Space("net: species lists of length <=3 over {A,B,C} (40) x reaction lists of length <=2 over 6 equations x labels {None,r1,r2} (343)",
@@ -1309,7 +1374,7 @@ def _work(job):
         res = check_case(case)
         sub = case["sub"]
         ops = {"eq": 14, "kbare": 9, "kexp": 6, "kwrong": 2, "kdict": 6, "kdictwrong": 1, "net": 4,
-               "hist": 0, "nethist": 0, "netobj": 1, "netadv": 3}[sub]
+               "hist": 0, "nethist": 0, "netobj": 1, "netadv": 3, "kfromdict": 2}[sub]
         if sub == "netadv":
             inside = case["x"] not in case["declared"] and case["x"] in ", ".join(case["declared"])
             acc.count("undeclared_label_textually_inside_declared_ones" if inside else
@@ -1323,6 +1388,11 @@ def _work(job):
             if any(o.split(".")[-1].startswith(("kr=", "set_k")) for o in case["ops"]) and \
                any(o.split(".")[-1] in ("K", "EC") for o in case["ops"]):
                 acc.count("histories_reading_K_and_changing_kr")
+            seq = [o.split(".")[-1] for o in case["ops"]]
+            if any(a.startswith("us=") and any(b in ("kf=scalar", "kr=scalar", "kf=dict", "kr=dict", "kf=zero", "kr=zero",
+                                                       "set_k=scalars", "set_k=dict+zero") for b in seq[i + 1:])
+                   for i, a in enumerate(seq)):
+                acc.count("histories_assigning_bare_numbers_after_a_units_system_change")
         acc.add(states=1, transitions=ops, traces=1, evaluations=1)
         if _nontrivial(case):
             nt += 1
